@@ -113,6 +113,14 @@ def gen_fn_scenario(rng: random.Random, static_only=True, simple_sigs=False, bod
     tables = None
     ops = []
     late = [i for i in range(nmeth) if rng.random() < 0.2]
+    if type_args and rng.random() < 0.5:
+        # the first type[...] annotation of a position arrives after the function has been used: the per-position
+        # choice between type() and subtler_type() has to change with the rebuild
+        from world import C_TYPE as _CT
+
+        typed = [i for i, d in enumerate(defs) if any(p["ty"][0] == "gen" and p["ty"][1] == _CT for p in d["params"])]
+        if typed and len(typed) < nmeth:
+            late = typed
     for i in range(nmeth):
         if i not in late:
             ops.append(["reg", i])
